@@ -20,6 +20,7 @@ pub mod c16;
 pub mod c17;
 pub mod c18;
 pub mod c19;
+pub mod c20;
 pub mod simcase;
 
 pub fn all() -> Vec<Box<dyn Property>> {
@@ -43,6 +44,7 @@ pub fn all() -> Vec<Box<dyn Property>> {
         Box::new(c17::C17),
         Box::new(c18::C18),
         Box::new(c19::C19),
+        Box::new(c20::C20),
     ]
 }
 
